@@ -5,13 +5,13 @@
  "bound": "generated test modules through Example.run_inline: C01 value trees depth<=2 (quick)/3 (thorough), width<=3, 6 operations x 4 placements + multi-value snapshots, flags=create; C02 (odd old text, new value) pairs depth<=2/3 incl. two-snapshot bodies, flags=create,fix; oracle = rewritten module compiles and re-runs green with snapshot := identity",
  "input": {
   "prop": "C02",
-  "old": "[2,]",
-  "new": "[2, 1, 2]",
+  "old": "NT(  a = 1 , b = None )",
+  "new": "[NT(a=1, b=None)]",
   "op": "eq",
   "shape": "single",
-  "placement": "assert"
+  "placement": "loop"
  },
- "detail": "a test raised during the create,fix run: RuntimeError:\ngenerator raised StopIteration\nsource:\ndef test_a():\n    v = [2, 1, 2]\n    assert v == snapshot([2,])\n\nrewritten:\ndef test_a():\n    v = [2, 1, 2]\n    assert v == snapshot([2,])\n"
+ "detail": "[other] re-run with snapshot := identity is not green: test_a: TypeError: NT.__new__() missing 1 required positional argument: 'b'\nsource:\ndef test_a():\n    for _ in range(3):\n        v = [NT(a=1, b=None)]\n        assert v == snapshot(NT(  a = 1 , b = None ))\n\nrewritten:\ndef test_a():\n    for _ in range(3):\n        v = [NT(a=1, b=None)]\n        assert v == snapshot([NT(a=1)])\n"
 }
 """
 
@@ -63,7 +63,7 @@ def rerun_identity(src):
     finally:
         inline_snapshot.snapshot = real
 
-SRC = 'from inline_snapshot import snapshot\n\n\n# ---- case ----\ndef test_a():\n    v = [2, 1, 2]\n    assert v == snapshot([2,])\n'
+SRC = 'from inline_snapshot import snapshot\nfrom collections import namedtuple\n\n\nNT = namedtuple("NT", "a b")\n\n\n# ---- case ----\ndef test_a():\n    for _ in range(3):\n        v = [NT(a=1, b=None)]\n        assert v == snapshot(NT(  a = 1 , b = None ))\n'
 FLAGS = 'create,fix'
 after, raised = run_inline({'test_something.py': SRC}, FLAGS, cwd_files={})
 new = after['test_something.py']
